@@ -24,15 +24,19 @@ Oracle (real objects only): (R1) after every event `held/` is absent or
 (R3) when attempt_lock raised, is_held is False and `held/info` does not carry
 the nonce of the failed attempt.
 
-Mutants this was built against (scratch worktrees, see report):
-  N1 `_create_pending_dir`: info written after the rename (put moved behind rename)
-  N2 `unlock`: delete info before renaming `held` away
-  N3 `_attempt_lock`: `_remove_pending_dir` dropped on contention (leftovers only: must stay clean for R1/R2,
-     caught by T2 listing) / `_lock_held = True` before the confirming peek (caught by R3)
-  N4 `force_break`: delete info before the rename
-  N5 `force_break_corrupt`: compares with the wrong content (never breaks)
-  N6 `_remove_pending_dir` removes `held` instead of the pending dir
-  harmless: unlock's rmdir wrapped differently, temporaries renamed.
+Mutants this was built against (scratch worktree; result of the run in brackets):
+  N1 `_create_pending_dir`/`_attempt_lock`: info written after the rename into place
+     [oracle R1: "after t2 the lock on disk is HeldNoInfo" — crash between rename and put]
+  N2 `unlock`: info deleted before `held` is renamed away [R1: HeldNoInfo at the crash point between]
+  N3 `_attempt_lock`: `_lock_held = True` before the confirming peek [R3: "attempt_lock raised E:FaultT but
+     is_held is True" — needs the fault at exactly that call]
+  N4 `force_break`: info deleted before the rename, re-check dropped [R1: HeldNoInfo]
+  N5 `force_break_corrupt`: renames the emptied directory back to `held` [R2: "a fresh locker cannot take the
+     lock, neither directly nor after break_lock ... held/info=e"]
+  N6 `_remove_pending_dir`: deletes `held/info` instead of the pending info [R1: HeldNoInfo after a contended attempt]
+  N7 `_attempt_lock`: `_remove_pending_dir` dropped on contention [T2 only (listing differs): leftovers are not
+     a violation of C27's statement]
+  H2 harmless: temporaries renamed / built with str.format [clean: 0 mismatches, only the known family]
 """
 import os
 
